@@ -407,6 +407,12 @@ def run(ch):
         g = guarded(lambda: [norm_loc(x) for x in rl.iter_range_lists()])
         if g != want_r:
             fails.append(('iter_range_lists()', [len(x) for x in want_r], g if isinstance(g, Raised) else [len(x) for x in g]))
+        # the same enumerations as the FIRST thing asked of a fresh object (no entry parsed, no attribute translated yet)
+        for what, want in (('loc', want_l), ('rng', want_r)):
+            dwf = dg.make_dwarfinfo(secs, info['le'], info['addr'])
+            g = guarded(lambda: [norm_loc(x) for x in (dwf.location_lists().iter_location_lists() if what == 'loc' else dwf.range_lists().iter_range_lists())])
+            if g != want:
+                fails.append(('fresh object: iter_%s_lists()' % ('location' if what == 'loc' else 'range'), [len(x) for x in want], g if isinstance(g, Raised) else [len(x) for x in g]))
         if ver == 5:
             for name, obj, blocks_, lists_, loc in (('loclists', ll, lblocks, llists, True), ('rnglists', rl, rblocks, rlists, False)):
                 g = guarded(lambda: [dict(h) for h in obj.iter_CUs()])
@@ -431,6 +437,17 @@ def run(ch):
                     e = [exp_v5(x, False) for x in mine]
                     if g != e:
                         fails.append(('rnglists.iter_CU_range_lists_ex(block %d)' % bi, [len(x) for x in e], g if isinstance(g, Raised) else [len(x) for x in g]))
+                    # ... also on a fresh object, where translating an entry parses entries of .debug_info for the first time between two yields
+                    dwf = dg.make_dwarfinfo(secs, info['le'], info['addr'])
+                    rlf = dwf.range_lists()
+
+                    def fresh_walk():
+                        cu0 = next(dwf.iter_CUs())
+                        hf = list(rlf.iter_CUs())[bi]
+                        return [norm_loc([rlf.translate_v5_entry(e_, cu0) for e_ in lst]) for lst in rlf.iter_CU_range_lists_ex(hf)]
+                    g = guarded(fresh_walk)
+                    if g != e:
+                        fails.append(('fresh object: rnglists.iter_CU_range_lists_ex(block %d)' % bi, [len(x) for x in e], g if isinstance(g, Raised) else [len(x) for x in g]))
     n = sum(len(r[2]['recs']) + len(r[3]['recs']) for r in refs)
     return Case(fails, data, repr(outs), nontrivial=n > 0,
                 sample={'le': info['le'], 'address_size': info['addr'], 'format': info['fmt'], 'sections': info['era'], 'lists': len(refs), 'entries': n,
